@@ -7,8 +7,9 @@ The rules file's Go AST comes annotated with what `types.Info` says about each n
 `cv` = `Types[e].Value` (none / a string / an int that fits int64 / a bigger int / another kind) and
 `isString` = "`Types` has `e` and `Type.String() == "string"`".  A basic literal also carries
 `strconv.Unquote(Value)`.  The result is the IR modulo `Src` and `Line` (both left zero).
-Local helper calls (`findLocalMacro`) are outside this model (see `Rg/Model/Macro.lean`): `expandMacro`
-builds a source expression and converts *that* with the same function.
+Local helper calls (`findLocalMacro` / `expandMacro`) enter through the `Hook` parameter: the hook is asked at
+the point of the Go code where `findLocalMacro` is (after the string-valued calls, before
+`convertExprList`), and answers with `expandMacro`'s result (see `Rg/Model/SrcGroup.lean`, `Rg/Model/Macro.lean`).
 
 Arity: the dsl package fixes the number of arguments of the real predicates, but the converter goes by
 names, so a user method named like a predicate can arrive with none.  The string-valued calls read their
@@ -168,6 +169,36 @@ def argCalls : List (List String) :=
    ["Type", "Is"], ["Type", "Underlying", "Is"], ["Type", "OfKind"], ["Type", "Underlying", "OfKind"],
    ["Type", "ConvertibleTo"], ["Type", "AssignableTo"], ["Type", "Implements"], ["Type", "HasMethod"]]
 
+/-- `findLocalMacro` + `expandMacro` as `convertFilterExprImpl` sees them: asked with the name of a call's
+bare-identifier `Fun` and the call's arguments; `none` = the group has no local helper of that name,
+`some r` = what `expandMacro` returns (`convertFilterExpr` of the expansion) or how it ends.
+`Rg/Model/SrcGroup.lean` builds the hook from the group's helper table (`Macro.expand`'s substitution);
+`noHook` = outside any group (the C18 conv suite, `Comp.convertRuleG`). -/
+abbrev Hook := String → List CExpr → Option (CRes FilterExpr)
+def noHook : Hook := fun _ _ => none
+/-- `findLocalMacro(call)`: `call.Fun.(*ast.Ident)` (no parentheses looked through), then the table -/
+def askHook (hk : Hook) (f : CExpr) (args : List CExpr) : Option (CRes FilterExpr) :=
+  match f with
+  | .ident _ name => hk name args
+  | _ => none
+
+mutual
+/-- the names of the bare-identifier calls of an expression: the only places the hook is asked about -/
+def callNames : CExpr → List String
+  | .call _ f args => (match f with | .ident _ n => [n] | _ => []) ++ (callNames f ++ callNamesL args)
+  | .paren _ x => callNames x
+  | .sel _ x _ => callNames x
+  | .index _ x i => callNames x ++ callNames i
+  | .unary _ _ x => callNames x
+  | .binary _ _ x y => callNames x ++ callNames y
+  | .lit _ _ _ => []
+  | .ident _ _ => []
+  | .other _ => []
+def callNamesL : List CExpr → List String
+  | [] => []
+  | a :: as => callNames a ++ callNamesL as
+end
+
 /-!
 `ar` = the arity check of `fixes/c06-predicate-arity.diff` is present (`convert` = the repaired
 converter, `convertAsIs` = the converter before that repair, which hands `VarTextMatches` & co. with
@@ -176,30 +207,30 @@ converter, `convertAsIs` = the converter before that repair, which hands `VarTex
 -/
 mutual
 /-- `convertFilterExpr` (modulo Src/Line): the implementation's result must be a valid op -/
-def convertG (ar : Bool) : CExpr → CRes FilterExpr
+def convertG (hk : Hook) (ar : Bool) : CExpr → CRes FilterExpr
   | e =>
-    match convertImplG ar e with
+    match convertImplG hk ar e with
     | .ok r => if r.op == 0 then .err else .ok r
     | .err => .err
     | .panic p => .panic p
 /-- `convertFilterExprImpl`: constant folding first, then the structure -/
-def convertImplG (ar : Bool) : CExpr → CRes FilterExpr
+def convertImplG (hk : Hook) (ar : Bool) : CExpr → CRes FilterExpr
   | e =>
     match e.ann.cv with
     | .str s => .ok (mkOp "String" (.str s) [])
     | .int n => .ok (mkOp "Int" (.int64 n) [])
-    | _ => convertStructG ar e
-def convertStructG (ar : Bool) : CExpr → CRes FilterExpr
-  | .paren _ x => convertG ar x
+    | _ => convertStructG hk ar e
+def convertStructG (hk : Hook) (ar : Bool) : CExpr → CRes FilterExpr
+  | .paren _ x => convertG hk ar x
   | .unary _ op x =>
-    (match convertG ar x with
+    (match convertG hk ar x with
      | .ok x' => if op == "!" then .ok (mkOp "Not" .nil [x']) else .ok invalid
      | .err => .err
      | .panic p => .panic p)
   | .binary _ op x y =>
-    (match convertG ar x with
+    (match convertG hk ar x with
      | .ok x' =>
-       (match convertG ar y with
+       (match convertG hk ar y with
         | .ok y' =>
           (match binaryOp op with
            | some name => .ok (mkOp name .nil [x', y'])
@@ -252,8 +283,12 @@ def convertStructG (ar : Bool) : CExpr → CRes FilterExpr
             | _ :: _ => .err
             | [] => .err)
          else
+           -- `if macro := conv.findLocalMacro(e); macro != nil { return conv.expandMacro(macro, e) }`
+           match askHook hk f args with
+           | some r => r
+           | none =>
            -- args := convertExprList(e.Args): every argument is converted before the path is looked at
-           (match convertListG ar args with
+           (match convertListG hk ar args with
             | .err => .err
             | .panic p => .panic p
             | .ok args' =>
@@ -268,12 +303,12 @@ def convertStructG (ar : Bool) : CExpr → CRes FilterExpr
                   (if s.varName == dollars then .ok (mkOp "RootSinkTypeIs" (.str s.varName) args') else .err)
                 else .ok invalid))
   | _ => .ok invalid
-def convertListG (ar : Bool) : List CExpr → CRes (List FilterExpr)
+def convertListG (hk : Hook) (ar : Bool) : List CExpr → CRes (List FilterExpr)
   | [] => .ok []
   | a :: as =>
-    (match convertG ar a with
+    (match convertG hk ar a with
      | .ok a' =>
-       (match convertListG ar as with
+       (match convertListG hk ar as with
         | .ok as' => .ok (a' :: as')
         | .err => .err
         | .panic p => .panic p)
@@ -282,11 +317,11 @@ def convertListG (ar : Bool) : List CExpr → CRes (List FilterExpr)
 end
 
 /-- the converter after `fixes/c06-predicate-arity.diff` -/
-abbrev convert : CExpr → CRes FilterExpr := convertG true
-abbrev convertImpl : CExpr → CRes FilterExpr := convertImplG true
-abbrev convertStruct : CExpr → CRes FilterExpr := convertStructG true
-abbrev convertList : List CExpr → CRes (List FilterExpr) := convertListG true
+abbrev convert : CExpr → CRes FilterExpr := convertG noHook true
+abbrev convertImpl : CExpr → CRes FilterExpr := convertImplG noHook true
+abbrev convertStruct : CExpr → CRes FilterExpr := convertStructG noHook true
+abbrev convertList : List CExpr → CRes (List FilterExpr) := convertListG noHook true
 /-- the converter before it -/
-abbrev convertAsIs : CExpr → CRes FilterExpr := convertG false
+abbrev convertAsIs : CExpr → CRes FilterExpr := convertG noHook false
 
 end Conv
